@@ -17,6 +17,15 @@ What it adds to heap mode (everything else is the unmodified translator):
  K3 `return a, ..., self.m(args)` (every item before the call a plain local name, the call last) -> `_c1 = self.m(args);
     return a, ..., _c1`: reading a local has no effect and the callee cannot rebind it.
 
+ K4 `return dict.__getitem__(self, k)[i]` (what H2 leaves of `return super().__getitem__(k)[-1]` / `[:]`) ->
+    `_g1 = dict.__getitem__(self, k); return _g1[i]`: the lookup (and its KeyError) first, then the item, as in Python.
+
+ K5 `a = x.add` of a local `x = set()` (both bound once, `a` only ever called, textually later) -> the binding removed,
+    `a(e)` -> `x.add(e)`.   K6 (`yield_unbox` generators) `yield E`, E a chain of constant subscripts -> `_y1 = E` under K1,
+    `yield _y1`.   K7 a local `x = set()` (bound once, declared in the spec's `locals`) used only as `e in x` / `e not in x`
+    / `x.add(e)` -> the list of the items added (`x = []`, `x.append(e)`).   (K5-K7 prepare the iterators; no spec uses
+    them yet: the base translator still refuses a list display in a heap-mode generator.)
+
  K2 `raise KeyError(<string literal> % <pure expression>)` -> `raise KeyError`: the message is not part of a `PyExc`
     (exceptions are compared by class); the argument expression is dropped only when it is a `%`-format of a constant
     string with `type(self)` / `self.__class__` / their `.__name__` (reads that cannot raise and have no effect).
@@ -85,6 +94,91 @@ def prepass(fdef, tree, spec, notes):
                     and isinstance(a.left.value, str) and _pure_name_expr(a.right, self_name) and 'type' not in scope:
                 st.exc = ast.copy_location(ast.Name(id='KeyError', ctx=ast.Load()), st.exc)
                 notes.add('K2 message of KeyError dropped')
+
+    # K5: `a = x.add` of a local set `x = set()` (both bound once), `a` only ever called -> `x.add(...)`
+    stores = py2lean_heap._stores(new)
+    for bind in [n for n in ast.walk(new) if isinstance(n, ast.Assign)]:
+        if not (len(bind.targets) == 1 and isinstance(bind.targets[0], ast.Name) and isinstance(bind.value, ast.Attribute)
+                and bind.value.attr == 'add' and isinstance(bind.value.value, ast.Name)):
+            continue
+        a, x = bind.targets[0].id, bind.value.value.id
+        xb = [n for n in ast.walk(new) if isinstance(n, ast.Assign) and len(n.targets) == 1
+              and isinstance(n.targets[0], ast.Name) and n.targets[0].id == x]
+        if stores.get(a) != 1 or stores.get(x) != 1 or len(xb) != 1 or not (
+                isinstance(xb[0].value, ast.Call) and isinstance(xb[0].value.func, ast.Name)
+                and xb[0].value.func.id == 'set' and not xb[0].value.args and not xb[0].value.keywords) or 'set' in stores:
+            continue
+        uses = [n for n in ast.walk(new) if isinstance(n, ast.Name) and n.id == a and isinstance(n.ctx, ast.Load)]
+        calls = [n for n in ast.walk(new) if isinstance(n, ast.Call) and isinstance(n.func, ast.Name) and n.func.id == a]
+        if len(uses) != len(calls) or any((n.lineno, n.col_offset) <= (bind.lineno, bind.col_offset) for n in uses):
+            continue
+        for c in calls:
+            c.func = ast.copy_location(ast.Attribute(value=ast.copy_location(ast.Name(id=x, ctx=ast.Load()), c.func),
+                                                     attr='add', ctx=ast.Load()), c.func)
+
+        def drop(stmts, bind=bind):
+            return [st for st in stmts if st is not bind] or [ast.copy_location(ast.Pass(), bind)]
+        new.body = py2lean_heap._map_blocks(new.body, drop)
+        notes.add('K5 bound method %s = %s.add' % (a, x))
+
+    # K7: a local `x = set()` (bound once) used ONLY as `e in x` / `e not in x` / `x.add(e)` -> the list of the items added
+    # (`x = []`, `x.append(e)`): membership is the same question, nothing else can see the difference
+    stores = py2lean_heap._stores(new)
+    for xb in [n for n in ast.walk(new) if isinstance(n, ast.Assign)]:
+        if not (len(xb.targets) == 1 and isinstance(xb.targets[0], ast.Name) and isinstance(xb.value, ast.Call)
+                and isinstance(xb.value.func, ast.Name) and xb.value.func.id == 'set' and not xb.value.args
+                and not xb.value.keywords and 'set' not in stores and stores.get(xb.targets[0].id) == 1):
+            continue
+        x = xb.targets[0].id
+        uses = [n for n in ast.walk(new) if isinstance(n, ast.Name) and n.id == x and isinstance(n.ctx, ast.Load)]
+        adds = [n for n in ast.walk(new) if isinstance(n, ast.Expr) and isinstance(n.value, ast.Call)
+                and isinstance(n.value.func, ast.Attribute) and n.value.func.attr == 'add'
+                and isinstance(n.value.func.value, ast.Name) and n.value.func.value.id == x
+                and len(n.value.args) == 1 and not n.value.keywords]
+        tests = [n for n in ast.walk(new) if isinstance(n, ast.Compare) and len(n.ops) == 1
+                 and isinstance(n.ops[0], (ast.In, ast.NotIn)) and isinstance(n.comparators[0], ast.Name)
+                 and n.comparators[0].id == x]
+        if len(uses) != len(adds) + len(tests) or spec.get('locals', {}).get(x) is None:
+            continue
+        for a in adds:
+            a.value.func.attr = 'append'
+        xb.value = ast.copy_location(ast.List(elts=[], ctx=ast.Load()), xb.value)
+        notes.add('K7 local set %s as the list of its items' % x)
+
+    # K6: `yield E` in a generator of keys, E a chain of constant subscripts -> `_y1 = E` (K1: checked unboxing); `yield _y1`
+    if spec.get('kind') == 'generator' and spec.get('yield_unbox') and '_y1' not in scope:
+        def unyield(stmts):
+            out = []
+            for st in stmts:
+                if isinstance(st, ast.Expr) and isinstance(st.value, ast.Yield) and st.value.value is not None \
+                        and _const_chain_root(st.value.value) is not None:
+                    call = ast.copy_location(ast.Call(func=ast.Name(id=OP + 'unbox_key', ctx=ast.Load()),
+                                                      args=[st.value.value], keywords=[]), st)
+                    out.append(ast.copy_location(ast.Assign(
+                        targets=[ast.copy_location(ast.Name(id='_y1', ctx=ast.Store()), st)], value=call), st))
+                    st.value.value = ast.copy_location(ast.Name(id='_y1', ctx=ast.Load()), st)
+                    notes.add('K6 checked unboxing of a yielded key')
+                out.append(st)
+            return out
+        new.body = py2lean_heap._map_blocks(new.body, unyield)
+
+    # K4: `return dict.__getitem__(self, k)[i]` (after H2) -> `_g1 = dict.__getitem__(self, k); return _g1[i]`
+    def split_get(stmts):
+        out = []
+        for st in stmts:
+            v = st.value if isinstance(st, ast.Return) else None
+            if isinstance(v, ast.Subscript) and isinstance(v.value, ast.Call) and isinstance(v.value.func, ast.Attribute) \
+                    and v.value.func.attr == '__getitem__' and isinstance(v.value.func.value, ast.Name) \
+                    and v.value.func.value.id == 'dict' and len(v.value.args) == 2 and not v.value.keywords \
+                    and isinstance(v.value.args[0], ast.Name) and v.value.args[0].id == self_name \
+                    and isinstance(v.value.args[1], ast.Name) and '_g1' not in scope and 'dict' not in scope:
+                out.append(ast.copy_location(ast.Assign(
+                    targets=[ast.copy_location(ast.Name(id='_g1', ctx=ast.Store()), st)], value=v.value), st))
+                v.value = ast.copy_location(ast.Name(id='_g1', ctx=ast.Load()), v.value)     # (textually after the binding)
+                notes.add('K4 item of dict.__getitem__(self, k) bound first')
+            out.append(st)
+        return out
+    new.body = py2lean_heap._map_blocks(new.body, split_get)
 
     # K3
     def hoist(stmts):
@@ -158,8 +252,13 @@ def _fam(method):
                     case.update(k=key if rng.random() < 0.5 else None, default=rng.choice([None, None, -1, 5]))
                 elif method == 'pop':
                     case.update(k=key, default=rng.choice([None, None, -1, 5]))
+                elif method == 'getitem':
+                    case.update(k=key)
+                elif method == 'getlist':
+                    case.update(k=key, default=rng.choice([None, None, [7], []]))
                 yield case
     return fam
 
 
-FAMILIES = {'OMD.poplast': _fam('poplast'), 'OMD.pop': _fam('pop'), 'OMD.popitem': _fam('popitem')}
+FAMILIES = {'OMD.poplast': _fam('poplast'), 'OMD.pop': _fam('pop'), 'OMD.popitem': _fam('popitem'),
+            'OMD.getitem': _fam('getitem'), 'OMD.getlist': _fam('getlist')}
